@@ -549,6 +549,7 @@ func TestVerifC10(t *testing.T) {
 		if err != nil {
 			t.Fatal(err)
 		}
+		identityReturnedAt := len(rec.log) // from this write on the member/device pair has been handed to a caller
 		if err := r.PutGroup(ctx, g); err != nil {
 			t.Fatal(err)
 		}
@@ -569,6 +570,11 @@ func TestVerifC10(t *testing.T) {
 			md1, err := s.GetOwnMemberDeviceForGroup(gg)
 			if err != nil {
 				ok, note = false, fmt.Sprintf("first use of a group of kind %d (account keys imported: %v), stop after write %d/%d: GetOwnMemberDeviceForGroup fails after restart: %v", kind, imported, cp, total, err)
+				break
+			}
+			// C10_named_keys_survive_a_stop: what GetOwnMemberDeviceForGroup had returned before the stop it returns after it
+			if cp >= identityReturnedAt && (!md1.Device().Equals(md0.Device()) || !md1.Member().Equals(md0.Member())) {
+				ok, note = false, fmt.Sprintf("first use of a group of kind %d (account keys imported: %v), stop after write %d/%d (the member/device pair had been returned after write %d): after the restart GetOwnMemberDeviceForGroup gives another identity", kind, imported, cp, total, identityReturnedAt)
 				break
 			}
 			md2, err := s.GetOwnMemberDeviceForGroup(gg)
